@@ -223,7 +223,8 @@ class LocationAction(object):
     def __get_int(self, name: str, default_value: int):
         try:
             return int(self.__config.get(name, default_value))
-        except ValueError:
+        except (ValueError, TypeError):
+            # text that is not a number, or not even text (None, a list) when the action is configured in code
             return default_value
 
     def __str__(self):
